@@ -13,8 +13,10 @@ import (
 	"strconv"
 	"strings"
 	"sync"
+	"sync/atomic"
 	"time"
 
+	"github.com/q191201771/lal/pkg/httpflv"
 	"github.com/q191201771/lal/pkg/logic"
 	"github.com/q191201771/lal/pkg/rtmp"
 	"github.com/q191201771/lal/pkg/rtsp"
@@ -53,6 +55,7 @@ func (w *W) EnableRelay(mode map[string]string) {
 	dialOnce.Do(func() {
 		rtmp.VerifDialFn = routeDial
 		rtsp.VerifDialFn = routeDial
+		httpflv.VerifDialFn = routeDial
 	})
 	w.relay = true
 	w.DialMode = mode
@@ -118,6 +121,11 @@ func (d *Dial) acceptLocked() *RtmpOrigin {
 		return d.Origin
 	}
 	d.Conn = w.Net.NewClientConn(fmt.Sprintf("dial%d-%s", d.Seq, d.Name))
+	if w.DialRaw[d.Name] {
+		d.State = "accepted"
+		d.gate <- dialResult{c: d.Conn}
+		return nil
+	}
 	d.Origin = &RtmpOrigin{W: w, Conn: d.Conn, dec: ref.NewChunkDecoder(128), enc: ref.NewChunkEncoder(128), hsIn: 1 + 1536 + 1536, Auto: true}
 	d.State = "accepted"
 	d.gate <- dialResult{c: d.Conn}
@@ -198,7 +206,7 @@ func (w *W) settleRelay() error {
 		}
 		// every relay goroutine is parked on a pending dial or on a live idle connection, and every
 		// push whose target has answered has gone through AddRtmpPushSession
-		if gor == pend+len(live)+w.PsExpected && pushAdds == startedPush {
+		if gor+int(atomic.LoadInt64(&w.ExtraGor)) == pend+len(live)+w.PsExpected && pushAdds == startedPush {
 			// the network must still be quiet (a goroutine may have moved between the two looks) and no
 			// origin may have unread output (a dial accepted after this round's pump)
 			unread := false
